@@ -593,6 +593,11 @@ class Interp:
         self._tick()
         if f is UNK:
             return UNK
+        if f is str and len(args) == 1 and not kwargs and isinstance(args[0], Obj):
+            r_ = self.table.resolve(args[0].cls, '__str__')
+            if r_ is not None and isinstance(r_.node, ast.FunctionDef):
+                return self.call(Func(r_.node, Env(module_of(r_.node)), args[0], r_.found_on), [], {}, node)
+            raise Undecided('str() of an object without __str__')
         if isinstance(f, Func):
             if f.self_obj is None and isinstance(f.node, ast.FunctionDef) and f.cls is not None and args and isinstance(args[0], Obj):
                 pass  # explicit ``Class.method(self, ...)``
@@ -855,6 +860,14 @@ class Interp:
             op_ = {v: k for k, v in self._DUNDERS.items()}.get(path.split('.', 1)[1].strip('_'))
             if op_ is not None:
                 return self._object_binop(op_, args[0], args[1])
+        if self.symbolic and path.startswith('operator.') and len(args) == 2 and not kwargs and any(isinstance(x, (Opaque, Sym)) for x in args) and not any(x is UNK for x in args):
+            sym_ = {'mul': '*', 'add': '+', 'sub': '-', 'truediv': '/', 'pow': '**', 'floordiv': '//', 'mod': '%'}.get(path.split('.', 1)[1].strip('_'))
+            if sym_ is not None:
+                if sym_ == '*' and args[0] == 1 and not isinstance(args[0], bool):
+                    return args[1]
+                if sym_ == '*' and args[1] == 1 and not isinstance(args[1], bool):
+                    return args[0]
+                return Sym(sym_, (args[0], args[1]))
         if path.startswith('operator.') and all(_concrete(x) for x in args) and not kwargs:
             import operator as _op
 
@@ -1525,6 +1538,10 @@ class Interp:
                 out.append(str(v.value))
             elif isinstance(v, ast.FormattedValue):
                 x = self.eval(v.value, env)
+                if isinstance(x, Obj) and v.format_spec is None and v.conversion == -1:
+                    r_ = self.table.resolve(x.cls, '__str__')
+                    if r_ is not None and isinstance(r_.node, ast.FunctionDef):
+                        x = self.call(Func(r_.node, Env(module_of(r_.node)), x, r_.found_on), [], {}, None)
                 if not _concrete(x) or v.format_spec is not None:
                     return '<text>'
                 out.append(repr(x) if v.conversion == ord('r') else str(x))
